@@ -28,7 +28,12 @@ def run(tier, seed):
                     if mult == 1:     # ... also when the thread that freed the pages has exited (abandoned segment, visited by non-forced collects)
                         runs.append({"args": ["--c18", pat, "--step", str(step), "--abandoned"], "env": env,
                                      "tag": "d%d.dec%d.m%d.%s.%s.abandoned" % (delay, dec, mult, pat, an)})
-    return osfam.run_os("C18", tier, seed, runs, builds=["rel"] if q else ["rel", "dbg"], own_guards=GUARDS, crash_decisive=False,
+    if q:     # several small arenas whose purges expire at different times (pinned: the global schedule must not forget the later ones; /repo 1362dd2)
+        for delay, dec, pat, extra in ((5, 1, "all", []), (10, 0, "all", []), (10, 1, "huge", ["--midclock"]), (10, 0, "huge", ["--midclock"])):
+            step = 2 * (delay + 1) + 2
+            runs.append({"args": ["--c18", pat, "--step", str(step)] + extra, "env": {"MIMALLOC_PURGE_DELAY": str(delay), "MIMALLOC_PURGE_DECOMMITS": str(dec), "MIMALLOC_ARENA_PURGE_MULT": "1", "MIMALLOC_ARENA_RESERVE": "65536"},
+                         "tag": "d%d.dec%d.m1.%s.tiny%s" % (delay, dec, pat, ".mid" if extra else ""), "build": "rel" if not extra else "dbg"})
+    return osfam.run_os("C18", tier, seed, runs, builds=["rel", "dbg"], own_guards=GUARDS, crash_decisive=False,
                         group=6,
                         extra_cov={"purge_delay": [-1, 0, 5, 10], "purge_decommits": [0, 1], "arena_purge_mult": [1, 10],
                                    "patterns": ["pages", "segments", "all", "huge"], "arena_configs": [a for a, _ in arenas], "configs_run": len(runs)},
